@@ -1,7 +1,113 @@
 import Driver.Util
+import Model.Skylight
+/-! Driver for engine `skylight` (C19), function mode.
+
+The harness describes the configuration of a running skylight binary, lists the regular files of
+every configured directory (independent walk, with SHA-256), and reports every GET it made with a
+canonically encoded target together with the status, the headers of interest and the SHA-256 of a
+200 body. The driver evaluates `Skylight.Route.respond ∘ route` — the definitions `Props/C19.lean`
+is about — and compares.
+
+  cfg <variant> home <0|1>
+  entry log|wit <idx> <hex host> <hex segment,… | ->
+  f log|wit <idx> <hex relative path> <sha256>
+  req <id> <hex Host> <hex path> | <status> <hex content-type> <gzip 0|1> <hex cache-control> <acao 0|1> <sha256 | ->
+  endcfg <variant>
+-/
 namespace Driver.Skylight
-/-- stub: engine not implemented yet -/
+open Skylight.Route TilePath
+
+structure FileRec where
+  root : RootId
+  rel : Bytes
+  sum : String
+
+structure St where
+  t : Driver.Tally := {}
+  home : Bool := false
+  logs : Array Entry := #[]
+  wits : Array Entry := #[]
+  files : Array FileRec := #[]
+
+def unhex (s : String) : Bytes := (Bytes.ofHex s).getD []
+def str (b : Bytes) : String := String.ofList (b.map fun c => Char.ofNat c.toNat)
+
+/-- `stripHostPort` of net/http for the hosts the harness uses (`name` or `name:digits`) -/
+def stripPort (h : Bytes) : Bytes :=
+  let r := h.reverse
+  let digits := r.takeWhile (fun c => 48 ≤ c && c ≤ 57)
+  match r.drop digits.length with
+  | 58 :: rest => if digits.isEmpty then h else rest.reverse
+  | _ => h
+
+def kindName : Kind → String
+  | .checkpoint => "checkpoint" | .logJSON => "log.v3.json" | .issuer => "issuer" | .tile => "tile" | .data => "data"
+  | .partialData => "partial" | .names => "names" | .witnessJSON => "witness.v0.json" | .mirrorJSON => "mirror.v0.json"
+
+def step (s : St) (lineno : Nat) (line : String) : IO St := do
+  let s := { s with t := { s.t with lines := s.t.lines + 1 } }
+  match Driver.words line with
+  | ["cfg", _, "home", h] => return { s with home := h == "1", logs := #[], wits := #[], files := #[] }
+  | ["entry", kind, _idx, host, segs] =>
+    let pfx := if segs == "-" then [] else (segs.splitOn ",").map unhex
+    let e : Entry := ⟨unhex host, pfx⟩
+    if kind == "log" then return { s with logs := s.logs.push e } else return { s with wits := s.wits.push e }
+  | ["f", kind, idx, rel, sum] =>
+    let root := if kind == "log" then RootId.log idx.toNat! else RootId.wit idx.toNat!
+    return { s with files := s.files.push ⟨root, unhex rel, sum⟩ }
+  | ["req", id, host, path, "|", status, ctype, gz, cache, acao, body] =>
+    let cfg : Cfg := ⟨s.home, s.logs.toList, s.wits.toList⟩
+    -- regular if listed. A path that runs through a listed regular file fails with ENOTDIR; net/http then
+    -- stats the components through `filesOnlyFS`, which hides directories: the answer is 404 if the first
+    -- component is that regular file and 500 (refused) if it lies deeper; else absent
+    let look (r : RootId) (p : Bytes) : FileState :=
+      if s.files.any (fun f => f.root == r && f.rel == p) then .regular
+      else if s.files.any (fun f => f.root == r && f.rel.contains 47 && (f.rel ++ [47]).isPrefixOf p) then .refused
+      else .absent
+    let out := route cfg (stripPort (unhex host)) (unhex path)
+    let resp := respond look out
+    let st := status.toNat!
+    let mut t := s.t
+    let mut err : Option String := none
+    match resp with
+    | .ok root file hdrs =>
+      let sum := (s.files.find? (fun f => f.root == root && f.rel == file)).map (·.sum)
+      if st ≠ 200 then err := some s!"model: 200 file {str file}; implementation: status {st}"
+      else if (some body != sum) then err := some s!"body is not the file {str file}"
+      else if str (unhex ctype) ≠ hdrs.ctype then err := some s!"Content-Type {str (unhex ctype)}, model {hdrs.ctype}"
+      else if (gz == "1") ≠ hdrs.gzip then err := some s!"Content-Encoding gzip={gz}, model {hdrs.gzip}"
+      else if str (unhex cache) ≠ hdrs.cache then err := some s!"Cache-Control {str (unhex cache)}, model {hdrs.cache}"
+      else if acao ≠ "1" then err := some "Access-Control-Allow-Origin missing"
+      match out with
+      | .file _ _ _ k _ => t := t.bump ("200:" ++ kindName k)
+      | _ => pure ()
+    | .moved =>
+      if st ≠ 301 ∧ st ≠ 302 then err := some s!"model: redirect; implementation: status {st}"
+      t := t.bump "redirect"
+    | .notFound =>
+      if st ≠ 404 then err := some s!"model: 404; implementation: status {st}"
+      else if gz == "1" ∨ cache ≠ "-" then err := some s!"404 carries Content-Encoding/Cache-Control"
+      match out with
+      | .file .. => t := t.bump "404:no-such-file"
+      | _ => t := t.bump "404:no-route"
+    | .error =>
+      if st ≠ 500 then err := some s!"model: 500; implementation: status {st}"
+      t := t.bump "500:not-a-directory"
+    | .special n => t := t.bump ("special:" ++ n)
+    match err with
+    | some e =>
+      IO.println s!"MISMATCH {lineno} req {id} Host {str (unhex host)} GET {str (unhex path)}: {e}"
+      return { s with t := { t with mismatches := t.mismatches + 1 } }
+    | none => return { s with t := { t with ok := t.ok + 1 } }
+  | ["endcfg", _] => return s
+  | [] => return s
+  | _ =>
+    IO.println s!"MISMATCH {lineno} unparsable line: {line.take 80}"
+    return { s with t := { s.t with mismatches := s.t.mismatches + 1 } }
+
 def main : IO UInt32 := do
-  IO.println "MISMATCH 0 engine skylight has no driver yet"
+  let s ← Driver.foldLines ({} : St) step
+  IO.println s.t.summary
   return 0
+
 end Driver.Skylight
